@@ -206,4 +206,59 @@ example : fixTree true true [(1, 6)] [(0, 0), (0, 1), (1, 9)] t0 (1, 5) = some (
     ∧ fixTree true true [(1, 6)] [(0, 0), (0, 1), (1, 9)] t0 (0, 0) = none
     ∧ fixTree true true [(1, 6)] [(0, 0), (0, 1), (1, 9)] t0 (1, 6) = some (.dir 2 (.ok (1, 6))) := by decide
 
+/-! ### non-vacuity of the named hypotheses `LinksDirect`, `AllPlaced`, `NoStaleSquatter` (audit round 8, item 6) -/
+
+theorem ofList_mem {l : List (Key × Entry)} {k : Key} {e : Entry} (h : ofList l k = some e) : (k, e) ∈ l := by
+  unfold ofList at h
+  simp only [Option.map_eq_some_iff] at h
+  obtain ⟨x, hx, rfl⟩ := h
+  have h1 := List.mem_of_find?_eq_some hx
+  have h2 := List.find?_some hx
+  simp at h2
+  rw [← h2]; exact h1
+
+/-- a jobs tree with one directory stored under a former identifier (`(0,1)`, its configuration now lives at `(1,6)`) and one link
+    `(1,6) → (0,1)` left by an earlier `--fix`. -/
+def tA : Tree := ofList [((0, 1), .dir 2 (.ok (1, 6))), ((1, 6), .link (0, 1))]
+
+theorem tA_linksDirect : LinksDirect tA := by
+  intro j g h
+  have := ofList_mem h
+  simp at this
+  obtain ⟨rfl, rfl⟩ := this
+  exact ⟨2, .ok (1, 6), by decide⟩
+
+theorem tA_allPlaced : AllPlaced tA := by
+  intro k d nk h _
+  have := ofList_mem h
+  simp at this
+  obtain ⟨rfl, rfl, rfl⟩ := this
+  exact ⟨(0, 1), by decide⟩
+
+def tS : Tree := ofList [((0, 0), .dir 1 (.ok (1, 5))), ((1, 5), .dir 7 (.ok (1, 5))), ((1, 6), .link (0, 0))]
+theorem tS_noStaleSquatter : NoStaleSquatter tS := by
+  intro k d nk h hne e n h2
+  have h1 := ofList_mem h
+  have h3 := ofList_mem h2
+  simp at h1 h3
+  rcases h1 with ⟨rfl, rfl, rfl⟩ | ⟨rfl, rfl, rfl⟩
+  · rcases h3 with ⟨h3, _⟩ | ⟨_, _, rfl⟩
+    · simp at h3
+    · rfl
+  · simp at hne
+theorem tS_linksDirect : LinksDirect tS := by
+  intro j g h
+  have := ofList_mem h
+  simp at this
+  obtain ⟨rfl, rfl⟩ := this
+  exact ⟨1, .ok (1, 5), by decide⟩
+
+/-- on `tA` the fixed-point criterion applies (its conclusion is not trivial: the directory at `(0,1)` *has* a new identifier, the run
+    leaves it alone because the link of the earlier repair already makes it reachable). -/
+example (ks1 ks2 : List Key) : fixTree true false ks1 ks2 tA = tA :=
+  fix_fixed_point true false ks1 ks2 tA tA_allPlaced (fun h => by simp at h)
+example : resolve tA depth (1, 6) = some (0, 1) := by decide
+/-- on `tS` a clean-up run has something to do: the squatted location `(1,5)` is occupied by an up-to-date directory, `(0,0)` stays. -/
+example : fixTree true true [(1, 6)] [(0, 0)] tS (0, 0) = some (.dir 1 (.ok (1, 5))) ∧ fixTree true true [(1, 6)] [(0, 0)] tS (1, 6) = none := by decide
+
 end XpmVerif.C20
